@@ -138,6 +138,11 @@ func (e *Engine) verifyCase(fn *ssa.Function, con *Contract, ci int, sc *SpecCas
 	e.addObl(st, fmt.Sprintf("%s/cover.pre%s#0", key, fr.callPath), "cover", nil, TFalse, "COVER: precondition satisfiable", "")
 	old := st.clone()
 	fr.old = old
+	for _, g := range con.GhostInc {
+		cur, _ := e.ghostInit(st, g).(*Term)
+		old.ghost[g] = cur
+		st.ghost[g] = Add(cur, Num(1))
+	}
 	if ci == 0 {
 		names := make([]string, len(fn.Params))
 		for i, p := range fn.Params {
@@ -274,6 +279,11 @@ func (e *Engine) checkFrame(fr *Frame, con *Contract, o Outcome, old *State, key
 			continue
 		}
 		listed := false
+		for _, g := range con.GhostInc {
+			if g == k {
+				listed = true
+			}
+		}
 		for _, m := range con.Modifies {
 			if f, ok := m.(*EField); ok {
 				if id, ok := f.X.(*EIdent); ok && id.Name == "ghost" && f.Name == k {
